@@ -304,6 +304,10 @@ func (s *Scope) Paths() []Path {
 		uv, _ := v.UnmarkDeep()
 		root := Var(name, uv.Type())
 		out = append(out, Path{root, uv.Type()})
+		if v.ContainsMarked() {
+			// never spell parts of a marked value (map keys) into source text
+			continue
+		}
 		addSubPaths(&out, root, uv, 2)
 	}
 	return out
